@@ -31,7 +31,10 @@ def find_table(model):
             except Exception:
                 continue
             if isinstance(v, DictV) and v.pairs and all(isinstance(k_, Const) for k_, _ in v.pairs) and \
-                    sorted(str(k_.value) for k_, _ in v.pairs) == sorted(OPS) and all(isinstance(x, DictV) for _, x in v.pairs):
+                    sorted(str(k_.value) for k_, _ in v.pairs) == sorted(OPS) and all(isinstance(x, DictV) for _, x in v.pairs) and \
+                    all(isinstance(y, DictV) and y.pairs and all(isinstance(z, DictV) and z.lookup(Const('left')) is not None
+                                                                  for _, z in y.pairs) for _, x in v.pairs for _, y in x.pairs):
+                # operator -> left kind -> right kind -> {'left': .., 'right': .., ['result': ..]}
                 return m, name, node
     raise AnalysisError('conversion table (mapping keyed by + - * /) not found (anchor vanished)')
 
@@ -82,7 +85,17 @@ def run(model, res, tier):
     acts = roles.binary_actions(g)
     em, singles = error_singletons(model)
     E = dict((msg, n) for n, msg in singles.items())
-    _table(model, res, opaque)
+    try:
+        find_table(model)
+        have_table = True
+    except AnalysisError:
+        have_table = False
+    if have_table:
+        _table(model, res, opaque)
+    else:
+        # no nested operator -> left kind -> right kind literal: decide the same rules on what the action computes
+        res.notes.append('C06: no nested conversion literal; R1-R3 decided by interpreting the arithmetic action per operand-kind pair')
+        _table_interp(model, res, g, acts, opaque)
     _text_and_zero(model, res, c, g, acts, opaque, E)
     _arrays(model, res, c, g, acts, opaque, E)
     _concat(model, res, c, g, acts, opaque)
@@ -102,7 +115,8 @@ def _conv_kind(interp_model, v, opaque_names):
     """Classify a converter value: 'none' | 'to-serial' | 'to-date' | 'zero' | 'other:<repr>'."""
     if isinstance(v, Const) and v.value is None:
         return 'none'
-    if isinstance(v, Func):
+    from ..absint import DispatchV
+    if isinstance(v, (Func, DispatchV)):
         if v.name == 'serialize_date':
             return 'to-serial'
         if v.name == 'parse_date':
@@ -118,6 +132,91 @@ def _conv_kind(interp_model, v, opaque_names):
             return 'zero'
         return 'other:%s' % H.describe(outs)
     return 'other:%r' % (v,)
+
+
+def _subterms(v):
+    yield v
+    if isinstance(v, Atom):
+        for a in v.args:
+            for x in _subterms(a):
+                yield x
+
+
+def _table_interp(model, res, g, acts, opaque):
+    """R1-R3 decided on what the arithmetic action computes instead of on the table's shape: for every operator and every pair
+    of operand kinds over {number, date, blank} the action is interpreted on symbolic operands; the outcome must be the operator
+    applied to (number itself | serial of the date | 0), optionally converted back to a date when a date takes part."""
+    m, f = acts['arith']
+    site = '%s:%s' % (m.name, f.name)
+    where = m.where(f)
+    opname = {'+': 'add', '-': 'sub', '*': 'mul', '/': 'truediv'}
+    mk = {'number': lambda n: (lambda: Sym('float', n)), 'datetime': lambda n: (lambda: Sym('datetime', n)),
+          'blank': lambda n: (lambda: Const(None))}
+    isdate = {}
+    n = 0
+    for op in OPS:
+        for lk in KINDS:
+            for rk in KINDS:
+                try:
+                    outs = _run_arith(model, g, acts, opaque, op, mk[lk]('a'), mk[rk]('b'))
+                except (Unmodelled, AnalysisError) as e:
+                    res.notes.append('undecided: C06.R1 %s %s %s: %s' % (lk, op, rk, e))
+                    continue
+                n += 1
+                case = {'op': op, 'left': lk, 'right': rk}
+                bad = [o for o in outs if o.kind != 'return' or (isinstance(o.value, Err) and o.value.name == 'VALUE')]
+                res.ob('R1', site, case, not bad, H.describe(bad) if bad else '')
+                if bad:
+                    res.violation('R1', '%s:missing-cell:%s:%s:%s' % (site, op, lk, rk), where,
+                                  'the arithmetic action has no conversion for %s %s %s: such an operation gives %s instead of the arithmetic '
+                                  'on the operands\' numeric values' % (lk, op, rk, H.describe(bad)), case=case)
+                    continue
+                if op == '/' and rk == 'blank':
+                    continue        # a blank divisor is the zero divisor of R5
+                # the operands as they must enter the operator
+                def want(kind, name):
+                    if kind == 'number':
+                        return lambda x: isinstance(x, Sym) and x.name == name
+                    if kind == 'datetime':
+                        return lambda x: isinstance(x, Atom) and x.op == 'serial' and len(x.args) == 1 and isinstance(x.args[0], Sym) and x.args[0].name == name
+                    return lambda x: isinstance(x, Const) and x.value == 0 and not isinstance(x.value, bool)
+                wl, wr = want(lk, 'a'), want(rk, 'b')
+                found = False
+                folded = None
+                if lk == 'blank' and rk == 'blank':
+                    folded = {'+': 0, '-': 0, '*': 0}[op]
+                for o in outs:
+                    for t in _subterms(o.value):
+                        if isinstance(t, Atom) and t.op == opname[op] and len(t.args) == 2 and wl(t.args[0]) and wr(t.args[1]):
+                            found = True
+                        if folded is not None and isinstance(t, Const) and t.value == folded and not isinstance(t.value, bool):
+                            found = True
+                res.ob('R2', site, dict(case, rule='operands enter the operator as (%s, %s)' % (lk, rk)), found, H.describe(outs))
+                if not found:
+                    names = {'number': 'itself', 'datetime': 'its serial number', 'blank': 'the constant 0'}
+                    res.violation('R2', '%s:converter:%s:%s:%s' % (site, op, lk, rk), where,
+                                  'for %s %s %s the left operand must act through %s and the right operand through %s; the action computes %s'
+                                  % (lk, op, rk, names[lk], names[rk], H.describe(outs)), case=case)
+                    continue
+                d = any(getattr(o.value, 'tag', None) == 'datetime' for o in outs)
+                isdate[(op, lk, rk)] = d
+                ok3 = not d or 'datetime' in (lk, rk)
+                res.ob('R2', site, dict(case, result='date' if d else 'number'), ok3)
+                if not ok3:
+                    res.violation('R2', '%s:result-converter:%s:%s:%s' % (site, op, lk, rk), where,
+                                  '%s %s %s gives a date although no date takes part' % (lk, op, rk), case=case)
+    res.soft_floor('arithmetic action interpreted per (operator, left kind, right kind)', n, 36)
+    for op in ('+', '*'):
+        for lk in KINDS:
+            for rk in KINDS:
+                if (op, lk, rk) in isdate and (op, rk, lk) in isdate:
+                    ok = isdate[(op, lk, rk)] == isdate[(op, rk, lk)]
+                    res.ob('R3', site, {'op': op, 'cell': (lk, rk), 'mirror': (rk, lk)}, ok)
+                    if not ok:
+                        res.violation('R3', '%s:asymmetric:%s:%s:%s' % (site, op, lk, rk), where,
+                                      '%s is commutative but %s %s %s gives a %s while %s %s %s gives a %s'
+                                      % (op, lk, op, rk, 'date' if isdate[(op, lk, rk)] else 'number', rk, op, lk,
+                                         'date' if isdate[(op, rk, lk)] else 'number'), case={'op': op, 'left': lk, 'right': rk})
 
 
 def _table(model, res, opaque):
